@@ -37,3 +37,23 @@ open MdIt.InlineH.Window
 #print axioms tagRest_shr_nonopen
 #print axioms extent_ext_nonopen
 #print axioms extent_shr_nonopen
+
+-- the open tag and the whole `HTML_TAG_RE` (appended)
+#check @closeK_ext
+#check @closeK_shr
+#check @valueEnds_emb
+#check @PA_all
+#check @openTagK_ext_weak
+#check @openTagK_shr
+#check @tagRest_ext_weak
+#check @tagRest_shr
+#check @extent_flatL2
+#print axioms closeK_ext
+#print axioms closeK_shr
+#print axioms valueEnds_emb
+#print axioms PA_all
+#print axioms openTagK_ext_weak
+#print axioms openTagK_shr
+#print axioms tagRest_ext_weak
+#print axioms tagRest_shr
+#print axioms extent_flatL2
